@@ -1,0 +1,59 @@
+//go:build verif
+
+package verifapi
+
+import (
+	"errors"
+	"io"
+
+	"github.com/glebziz/fs_db/internal/utils/grpc/streamreader"
+)
+
+type recvReq struct{ b []byte }
+
+func (r *recvReq) GetChunk() []byte { return r.b }
+
+// ErrStreamAborted is what the scripted upload stream answers once it was
+// aborted (a cancelled context or a broken transport in a real call).
+var ErrStreamAborted = errors.New("verifapi: upload stream aborted")
+
+// scriptedStream is an in-memory server stream: the chunks in order, then the
+// ending - io.EOF, or ErrStreamAborted - on every further Recv, as gRPC does.
+type scriptedStream struct {
+	chunks  [][]byte
+	aborted bool
+}
+
+func (s *scriptedStream) Recv() (*recvReq, error) {
+	if len(s.chunks) == 0 {
+		if s.aborted {
+			return nil, ErrStreamAborted
+		}
+
+		return nil, io.EOF
+	}
+	c := s.chunks[0]
+	s.chunks = s.chunks[1:]
+
+	return &recvReq{b: append([]byte{}, c...)}, nil
+}
+
+// StreamRead is the result of one Read of the server's upload reader.
+type StreamRead struct {
+	Data []byte
+	Err  error
+}
+
+// StreamReads runs the real upload reader of the gRPC server over a scripted
+// stream and performs one Read per entry of sizes (a buffer of that length).
+func StreamReads(chunks [][]byte, aborted bool, sizes []int) []StreamRead {
+	var r io.Reader = streamreader.New[*recvReq](&scriptedStream{chunks: chunks, aborted: aborted})
+	res := make([]StreamRead, 0, len(sizes))
+	for _, n := range sizes {
+		p := make([]byte, n)
+		k, err := r.Read(p)
+		res = append(res, StreamRead{Data: p[:k], Err: err})
+	}
+
+	return res
+}
